@@ -202,6 +202,20 @@ def mutations(kind, fmt, v, rng):
     return out
 
 
+def widen_header_floats(kind, o):
+    """give the block its start time as a Python float that is NOT exactly a float32 but rounds to the stored one:
+    content is compared at the on-disk width"""
+    attr = {"D3": "startTime", "EM": "startTime", "FT": "startTime", "D2": "startTime", "PD": "start_time", "EV": "start_time"}.get(kind)
+    if not attr:
+        return
+    x = float(getattr(o, attr))
+    if x == 0.0 or not np.isfinite(x):
+        return
+    y = x * (1.0 + 2.0 ** -30)
+    if np.float32(y) == np.float32(x):
+        setattr(o, attr, y)
+
+
 def compare(a, b):
     def one(x, y):
         try:
@@ -227,6 +241,7 @@ def run(chk):
         v = sanitize(kind, v)
         try:
             a = blocks.build(kind, fmt, v)
+            widen_header_floats(kind, a)
             twin = blocks.build(kind, fmt, copy.deepcopy(v))
             raw = blocks.impl_write(a)
             dec, _ = blocks.impl_build(kind, fmt, raw)
